@@ -1179,6 +1179,9 @@ class Gen:
     def fresh(self, lead):
         self.counter += 1
         c = self.counter
+        if self.rng.random() < 0.12:
+            # boundary lead characters of a NameSeg ('A'..'Z' and '_'): comparisons against the ends of the range
+            lead = self.rng.choice('ZZA_')
         al = 'ABCDEFGHIJKLMNOPQRSTUVWXYZ0123456789_'
         s = lead + al[(c // (37 * 37)) % 37] + al[(c // 37) % 37] + al[c % 37]
         return seg(s)
